@@ -18,43 +18,88 @@ impl Hasher for FpHasher {
 }
 fn fp<Q: Hash + ?Sized>(q: &Q) -> Fp { let mut h = FpHasher::default(); q.hash(&mut h); h.0 }
 
+/// Fixed four slots, no Vec: `Vec::remove`/`insert` are memmoves with a
+/// symbolic length that the solver does not finish.  Insertion order is slot
+/// order; a removed entry leaves a hole that iteration skips.
+pub const CAP: usize = 4;
 #[derive(Clone, Debug)]
-pub struct HashMap<K, V> { entries: Vec<(Fp, K, V)> }
-impl<K, V> Default for HashMap<K, V> { fn default() -> Self { Self { entries: Vec::with_capacity(4) } } }
+pub struct HashMap<K, V> { slots: [Option<(Fp, K, V)>; CAP], used: usize }
+impl<K, V> Default for HashMap<K, V> { fn default() -> Self { Self { slots: [None, None, None, None], used: 0 } } }
 impl<K: Hash + Eq, V> HashMap<K, V> {
     pub fn new() -> Self { Self::default() }
+    fn hit<Q>(&self, i: usize, f: &Fp, q: &Q) -> bool where K: Borrow<Q>, Q: Hash + Eq + ?Sized {
+        match &self.slots[i] { Some((ef, ek, _)) => *ef == *f && ek.borrow() == q, None => false }
+    }
+    // written without loops: every loop pays the harness-wide unwind bound
     fn find<Q>(&self, q: &Q) -> Option<usize> where K: Borrow<Q>, Q: Hash + Eq + ?Sized {
         let f = fp(q);
-        let mut i = 0;
-        while i < self.entries.len() {
-            if self.entries[i].0 == f && self.entries[i].1.borrow() == q { return Some(i); }
-            i += 1;
-        }
+        if self.hit(0, &f, q) { return Some(0); }
+        if self.hit(1, &f, q) { return Some(1); }
+        if self.hit(2, &f, q) { return Some(2); }
+        if self.hit(3, &f, q) { return Some(3); }
         None
     }
-    pub fn len(&self) -> usize { self.entries.len() }
-    pub fn is_empty(&self) -> bool { self.entries.is_empty() }
-    pub fn get<Q>(&self, q: &Q) -> Option<&V> where K: Borrow<Q>, Q: Hash + Eq + ?Sized { self.find(q).map(|i| &self.entries[i].2) }
+    pub fn len(&self) -> usize {
+        self.slots[0].is_some() as usize + self.slots[1].is_some() as usize + self.slots[2].is_some() as usize + self.slots[3].is_some() as usize
+    }
+    pub fn is_empty(&self) -> bool { self.len() == 0 }
+    // slot accesses use constant indices (a symbolic index into an array of large structs is a byte-level
+    // update of the whole array for the solver)
+    pub fn get<Q>(&self, q: &Q) -> Option<&V> where K: Borrow<Q>, Q: Hash + Eq + ?Sized {
+        let f = fp(q);
+        if self.hit(0, &f, q) { return self.slots[0].as_ref().map(|e| &e.2); }
+        if self.hit(1, &f, q) { return self.slots[1].as_ref().map(|e| &e.2); }
+        if self.hit(2, &f, q) { return self.slots[2].as_ref().map(|e| &e.2); }
+        if self.hit(3, &f, q) { return self.slots[3].as_ref().map(|e| &e.2); }
+        None
+    }
     pub fn contains_key<Q>(&self, q: &Q) -> bool where K: Borrow<Q>, Q: Hash + Eq + ?Sized { self.find(q).is_some() }
-    pub fn remove<Q>(&mut self, q: &Q) -> Option<V> where K: Borrow<Q>, Q: Hash + Eq + ?Sized { self.find(q).map(|i| self.entries.remove(i).2) }
+    pub fn remove<Q>(&mut self, q: &Q) -> Option<V> where K: Borrow<Q>, Q: Hash + Eq + ?Sized {
+        let f = fp(q);
+        if self.hit(0, &f, q) { return self.slots[0].take().map(|e| e.2); }
+        if self.hit(1, &f, q) { return self.slots[1].take().map(|e| e.2); }
+        if self.hit(2, &f, q) { return self.slots[2].take().map(|e| e.2); }
+        if self.hit(3, &f, q) { return self.slots[3].take().map(|e| e.2); }
+        None
+    }
+    fn push(&mut self, f: Fp, k: K, v: V) -> usize {
+        assert!(self.used < CAP, "verif model bound: more than 4 insertions into a model map");
+        let i = self.used;
+        match i {
+            0 => self.slots[0] = Some((f, k, v)),
+            1 => self.slots[1] = Some((f, k, v)),
+            2 => self.slots[2] = Some((f, k, v)),
+            _ => self.slots[3] = Some((f, k, v)),
+        }
+        self.used += 1;
+        i
+    }
+    fn value_mut(&mut self, i: usize) -> &mut V {
+        match i {
+            0 => &mut self.slots[0].as_mut().unwrap().2,
+            1 => &mut self.slots[1].as_mut().unwrap().2,
+            2 => &mut self.slots[2].as_mut().unwrap().2,
+            _ => &mut self.slots[3].as_mut().unwrap().2,
+        }
+    }
     pub fn insert(&mut self, k: K, v: V) -> Option<V> {
         match self.find(&k) {
-            Some(i) => Some(std::mem::replace(&mut self.entries[i].2, v)),
-            None => { let f = fp(&k); self.entries.push((f, k, v)); None }
+            Some(i) => Some(std::mem::replace(self.value_mut(i), v)),
+            None => { let f = fp(&k); self.push(f, k, v); None }
         }
     }
     pub fn entry(&mut self, k: K) -> Entry<'_, K, V> { Entry { map: self, key: k } }
-    pub fn keys(&self) -> impl Iterator<Item = &K> { self.entries.iter().map(|(_, k, _)| k) }
-    pub fn iter(&self) -> impl Iterator<Item = (&K, &V)> { self.entries.iter().map(|(_, k, v)| (k, v)) }
+    pub fn keys(&self) -> impl Iterator<Item = &K> { self.slots.iter().filter_map(|e| e.as_ref().map(|(_, k, _)| k)) }
+    pub fn iter(&self) -> impl Iterator<Item = (&K, &V)> { self.slots.iter().filter_map(|e| e.as_ref().map(|(_, k, v)| (k, v))) }
 }
 pub struct Entry<'a, K, V> { map: &'a mut HashMap<K, V>, key: K }
 impl<'a, K: Hash + Eq, V> Entry<'a, K, V> {
     pub fn or_insert(self, default: V) -> &'a mut V {
         let idx = match self.map.find(&self.key) {
             Some(i) => i,
-            None => { let f = fp(&self.key); self.map.entries.push((f, self.key, default)); self.map.entries.len() - 1 }
+            None => { let f = fp(&self.key); self.map.push(f, self.key, default) }
         };
-        &mut self.map.entries[idx].2
+        self.map.value_mut(idx)
     }
 }
 impl<K: Hash + Eq, V> FromIterator<(K, V)> for HashMap<K, V> {
@@ -69,8 +114,8 @@ impl<K: Hash + Eq> HashSet<K> {
 }
 impl<K> IntoIterator for HashSet<K> {
     type Item = K;
-    type IntoIter = std::iter::Map<std::vec::IntoIter<(Fp, K, ())>, fn((Fp, K, ())) -> K>;
-    fn into_iter(self) -> Self::IntoIter { fn key<K>(e: (Fp, K, ())) -> K { e.1 } self.map.entries.into_iter().map(key::<K>) }
+    type IntoIter = std::iter::FilterMap<std::array::IntoIter<Option<(Fp, K, ())>, CAP>, fn(Option<(Fp, K, ())>) -> Option<K>>;
+    fn into_iter(self) -> Self::IntoIter { fn key<K>(e: Option<(Fp, K, ())>) -> Option<K> { e.map(|x| x.1) } self.map.slots.into_iter().filter_map(key::<K>) }
 }
 
 // ---------------------------------------------------------------------------
